@@ -1766,7 +1766,7 @@ pub fn run(ctx: &Ctx, replay: Option<&Value>) -> i32 {
 
     ctx.finish(
         "exploration",
-        "every construct nest of depth <= d (quick 2, thorough 3) over 59 level variants (.loop 0..3; .if with 5 statically decidable conditions x then / then+else / child in else; macro with 0-2 parameters x 1-2 invocations x defined at top / locally / after use; .const literal or expression x before / after use; {} and l: {}; .import * / name / name as / * as ns / two names / same file twice (aliases, namespaces) / name of a block label x with and without parameter block, the nested construct living in the imported file) x leaf body (nop, lda #V, .byte V + 1 for V in index / macro parameter / constant where one is in scope, jmp outer, jmp fwd, inner label + branch in own braces, bne - in own braces). P and its by-hand expansion (AST -> AST, written here) are both assembled by the real code and their segments compared. non-trivial = distinct P containing at least one construct where both P and expand(P) assemble",
+        "every construct nest of depth <= d (quick 2, thorough 3) over 80 level variants (.loop 0..3; .if with 5 statically decidable conditions x then / then+else / child in else; macro with 0-2 parameters x 1-2 invocations x defined at top / locally / after use; .const literal or expression x before / after use; {} and l: {}; .import * / name / name as / * as ns / two names / same file twice (aliases, namespaces) / name of a block label x with and without parameter block, the nested construct living in the imported file) x leaf body (nop, lda #V, .byte V + 1 for V in index / macro parameter / constant where one is in scope, jmp outer, jmp fwd, inner label + branch in own braces, bne - in own braces). P and its by-hand expansion (AST -> AST, written here) are both assembled by the real code and their segments compared. non-trivial = distinct P containing at least one construct where both P and expand(P) assemble",
         true,
         &[
             "depth bound d (2 quick / 3 thorough); one nest per program, one leaf per nest",
